@@ -966,7 +966,7 @@ def draw_simplices(
 
     # add the projected pairwise interactions
     dyads = subfaces(H_.edges.members(), order=1)
-    H_.add_edges_from(dyads)
+    H_.add_edges_from([set(d) for d in dyads])  # member sets: unambiguous format
     H_.cleanup(
         multiedges=False,
         isolates=True,
